@@ -324,6 +324,26 @@ def build_thr(pid: str, inp, clauses) -> Case:
         ta = np.nextafter(ta, np.inf)
     cb = cells(s.cm(tb))
     ca = cells(s.cm(ta))
+    # extreme targets handed over in LOW PRECISION (np.float32 / np.float16 scalars and arrays: 0 and 1 are exact in every
+    # float format): the threshold must realise the same extreme of the metric as for the float64 target, whose matrices
+    # `cl` are judged against the model below
+    ext = [(k_, r_) for k_, r_ in enumerate(rs) if r_ in (0.0, 1.0)]
+    if ext and not inp.get("big"):
+        for ldt in (np.float32, np.float16):
+            arr_l = np.array([r_ for _, r_ in ext], dtype=ldt)
+            for form, arg in (("array", arr_l), ("scalar", ldt(ext[0][1]))):
+                rl = common.call(fn, arg)
+                if rl[0] == "exc":
+                    pre.append(Issue("PROPFAIL", "raises", f"{name}({ldt.__name__} {form} target {np.asarray(arg).tolist()}) raised {rl[1]}: {rl[2]}",
+                                     f"thr/raises/lowprec/{rl[1]}"))
+                    continue
+                tl_l = np.asarray(rl[1], dtype=float).reshape(-1)
+                cells_l = cells(s.cm(tl_l))
+                want = [v for k_, _ in (ext if form == "array" else ext[:1]) for v in cl[4 * k_:4 * k_ + 4]]
+                if cells_l != want:
+                    pre.append(Issue("PROPFAIL", "extreme", f"{name}({ldt.__name__} {form} target {np.asarray(arg).tolist()}) = {tl_l.tolist()}: matrices "
+                                     f"{cells_l} there, but the float64 targets give thresholds with matrices {want} (cfg=({sc_},{ec_}) ep={ep_} en={en_})",
+                                     f"thr/{metric}/extreme/low-precision-target"))
     eps = Fraction(0) if ex else Fraction(1, 10**9)
     epst = Fraction(0) if ex else Fraction(1, 10**9) * Fraction(scale + 1)
     ln = line("thr", pos=ql(pos), neg=ql(neg), ep=ep_, en=en_, sc=sc_, ec=ec_,
